@@ -424,7 +424,10 @@ def near_misses(kid):
     if kind == "rsa":
         m.get_text()
         e, n = m.get_mpint(), m.get_mpint()
-        for lab, (e2, n2) in (("other-e", (3 if e != 3 else 5, n)), ("other-n", (e, n + 2))):
+        import sys as _sys
+        M = _sys.hash_info.modulus           # Python ints hash modulo this (2**61 - 1): equal-hash numbers
+        for lab, (e2, n2) in (("other-e", (3 if e != 3 else 5, n)), ("other-n", (e, n + 2)),
+                              ("other-n-same-int-hash", (e, n + 2 * M)), ("other-e-same-int-hash", (e + 2 * M, n))):
             mm = Message()
             mm.add_string("ssh-rsa")
             mm.add_mpint(e2)
